@@ -150,11 +150,29 @@ ZZ = {"id": "zz", "name": "zz", "type": "t", "sc": None, "pc": None, "subs": [],
       "props": [{"id": "zp", "name": "zp", "dtype": "int", "values": [{"i": 1}], "raw": False, "card": None}]}
 
 
+# strings on which several of the string-dtype hints of property_values_string_check apply at once
+# (the report must not depend on the order in which a process happens to try them)
+MULTI = ["True\nand more", "t\nx", "FALSE\n1", "(0.5; 1.5)\nsecond line", "f\n(1;2)", "True (1;2)",
+         "(a)\n12", "t 12:30", "False\r\n2020-01-02"]
+
+
+def multi_doc(rng):
+    """A document whose string Properties hold values several string-dtype hints apply to."""
+    ids = c08.id_source(rng, 0.0)
+    props = []
+    for i, text in enumerate(rng.sample(MULTI, 5)):
+        vals = [{"s": text}] + ([{"s": rng.choice(MULTI)}] if rng.random() < 0.4 else [])
+        props.append({"id": ids(), "name": "m%d" % i, "dtype": "string", "values": vals, "raw": False,
+                      "card": None})
+    sec = {"id": ids(), "name": "multi", "type": "t", "sc": None, "pc": None, "subs": [], "props": props}
+    return {"id": ids(), "secs": [sec, json.loads(json.dumps(ZZ))]}
+
+
 def gen_doc(rng, dirt):
     ids = c08.id_source(rng, 0.1 if dirt else 0.0)
     secs = []
     for _ in range(rng.choice([0, 1, 2])):
-        secs.append(c08.gen_sec(rng, ids, rng.choice([0, 1]), c08.STRS[:30], dirt, [x["name"] for x in secs]))
+        secs.append(c08.gen_sec(rng, ids, rng.choice([0, 1]), c08.STRS[:30] + MULTI, dirt, [x["name"] for x in secs]))
     doc = {"id": ids(), "secs": secs + [json.loads(json.dumps(ZZ))]}
     # the one documented way to make a rule raise (C08: unreadable tuple length) is kept out
     def clean(sec):
@@ -185,7 +203,7 @@ def gen_history(rng, tier):
             u = len(users)
             if rng.random() < 0.5:
                 users.append((u, True))
-                acts.append({"t": "new", "u": u, "reset": True})
+                acts.append({"t": "new", "u": u, "reset": True, "quiet": rng.random() < 0.5})
             else:
                 users.append((u, False))
                 acts.append({"t": "default", "u": u})
@@ -259,7 +277,8 @@ class C19(fw.Check):
                           "seed": rng.randrange(10 ** 6)})
         for b in range(4 if quick else 16):
             cases.append({"stream": "xproc", "hashseed": rng.randrange(1, 4000),
-                          "docs": [gen_doc(rng, rng.choice([0.05, 0.3, 0.6])) for _ in range(30 if quick else 200)]})
+                          "docs": [gen_doc(rng, rng.choice([0.05, 0.3, 0.6])) for _ in range(30 if quick else 200)]
+                                  + [multi_doc(rng) for _ in range(3)]})
         return cases
 
     # -- implementation ------------------------------------------------------
@@ -337,7 +356,9 @@ class C19(fw.Check):
             obs = {}
             try:
                 if t == "new":
-                    insts[a["u"]] = Validation(doc, validate=False, reset=True)
+                    # both spellings of "created with reset=True" (validate defaults to True)
+                    insts[a["u"]] = Validation(doc, validate=False, reset=True) if a.get("quiet", True) \
+                        else Validation(doc, reset=True)
                     is_reset[a["u"]] = True
                     handlers_of[a["u"]] = {}
                 elif t == "default":
@@ -588,6 +609,18 @@ class C19(fw.Check):
         return ("xproc", any(obs.get("here", [])))
 
 
+def issues_with_text(errors, refs):
+    """(object, IssueID, rank, message) - the same code produces both sides of a cross-process
+    comparison, so the message text belongs to "the same collection of issues" here."""
+    import re
+    out = []
+    for e in errors:
+        vid = getattr(e.validation_id, "value", None)
+        msg = re.sub(r"0x[0-9a-fA-F]+", "0x", str(getattr(e, "msg", "")))
+        out.append([refs.get(id(e.obj), "?"), vid, e.rank, msg])
+    return sorted(out, key=lambda x: (x[0], x[1] if x[1] is not None else -1, str(x[2]), x[3]))
+
+
 def child_validate(docs):
     """Default validation and a reset validation with user rules, per document -> issue lists."""
     from odml.validation import Validation
@@ -596,7 +629,7 @@ def child_validate(docs):
         doc, _bt = c08.build({"kind": "doc", "node": spec})
         _kind, _snap, refs = c08.snapshot(doc)
         try:
-            a = c08.issue_list(Validation(doc).errors, refs)
+            a = issues_with_text(Validation(doc).errors, refs)
         except Exception as exc:
             a = ["raised " + fw.exc_name(exc)]
         val = Validation(doc, validate=False, reset=True)
@@ -607,7 +640,7 @@ def child_validate(docs):
                 val.register_custom_handler(k, handler_func({"r": name}))
         try:
             val.run_validation()
-            b = c08.issue_list(val.errors, refs)
+            b = issues_with_text(val.errors, refs)
         except Exception as exc:
             b = ["raised " + fw.exc_name(exc)]
         out.append([a, b])
